@@ -3970,7 +3970,7 @@ RULE_TD1 = ('TD1: a trial-division sweep `range(lo, B, step)` whose body tests `
             'without the +1 never tries x = sqrt(n): 9, 25, 49 pass as primes).')
 RULE_DT14 = ('DT14: a buffer allocated from a scalar parameter without a dtype (np.full(n, p), np.diag(np.full(n, p)), np.array([.. p ..])) has the dtype of what the caller '
              'passed; a later item store of a quotient / root is truncated when the caller passes an integer end point (b = 0 or 1).')
-RULE_DROP1 = ('DROP1: in the certificate routines of numqi.matrix_space a loop that accumulates witness vectors appends on every iteration: no `continue` under a magnitude '
+RULE_DROP1 = ('DROP1: in the hierarchy certificate routines (numqi.matrix_space._hierarchy) a loop that accumulates witness vectors appends on every iteration: no `continue` under a magnitude '
               'test (abs / max / norm against a tolerance) precedes the append - a vanishing vector is itself the dependence witness.')
 RULE_RD2 = ('RD2: in a state constructor with a `return_dm` switch the conversion to the projector is the last transformation of the result: nothing modifies `ret` after the '
             '`if return_dm:` block (the density matrix is the projector of the very ket the other mode returns).')
@@ -4062,7 +4062,7 @@ def td1_dt14_drop1_rd2(proj, rep, which, modules=None):
                                   f'integer end point {src} = 0 (or 1) the entries are truncated', m, bad)
                 else:
                     rep.ok('DT14', fi.qual, f'`{ast.unparse(s)[:50]}`: no fractional item store follows', m, s)
-        if 'DROP1' in which and m.name.startswith('numqi.matrix_space'):
+        if 'DROP1' in which and m.name in ('numqi.matrix_space._hierarchy',):
             for lp in ast.walk(fi.node):
                 if not isinstance(lp, ast.For):
                     continue
